@@ -19,6 +19,7 @@ func (w *Proxy) checkAll() {
 	w.checkC01()
 	w.checkC02()
 	w.checkC03()
+	w.checkC14()
 }
 
 type poolBooks interface {
@@ -231,6 +232,14 @@ func (w *Proxy) checkC03() {
 	for _, r := range w.H.Reqs {
 		if r.ConnID == 0 || r.SentAt == 0 {
 			continue // never sent (connect refused / client had left)
+		}
+		if len(w.P.Filters) > 0 {
+			if want, got, end, _ := w.filterOutcome(r); end == "terminated" && len(got) == len(want) {
+				if len(r.Replies) > 0 {
+					s.Violate("C03", "reply_after_filter_termination", "req#%d was terminated by a stream filter and still received %d replies", r.Idx, len(r.Replies))
+				}
+				continue // "only if ... a filter explicitly terminated the stream, the exchange ends without a reply"
+			}
 		}
 		if w.clientBlind(r.Client) {
 			continue // the client could no longer parse what it received after an upstream's malformed reply was forwarded to it
@@ -490,4 +499,166 @@ func (w *Proxy) clientBlind(name string) bool {
 		}
 	}
 	return false
+}
+
+// ---- C14: filters run in order; an answered / terminated request is never forwarded ----
+func (w *Proxy) checkC14() {
+	s := w.S
+	if len(w.P.Filters) == 0 {
+		return
+	}
+	calls := FLog.Calls()
+	keyOf := map[string]string{} // token -> stream key
+	for _, c := range calls {
+		if c.Kind == "recv" && c.Tok != "" {
+			if _, ok := keyOf[c.Tok]; !ok {
+				keyOf[c.Tok] = c.Key
+			}
+		}
+	}
+	var sendFilters []string
+	for _, f := range w.P.Filters {
+		if f.Send {
+			sendFilters = append(sendFilters, f.Name)
+		}
+	}
+	for _, r := range w.H.Reqs {
+		if r.SentAt == 0 || r.ConnID == 0 || r.Extra["probe"] != "" {
+			continue
+		}
+		verdict := map[string]string{}
+		for _, f := range w.P.Filters {
+			if v := r.Extra["fv:"+f.Name]; v != "" {
+				verdict[f.Name] = v
+			}
+		}
+		want, end := expectedRecvCalls(w.P.Filters, verdict)
+		var got []string
+		for _, c := range calls {
+			if c.Kind == "recv" && c.Tok == r.Token {
+				got = append(got, c.Filter)
+			}
+		}
+		w.Stats["c14_requests"]++
+		if end != "forward" {
+			w.Stats["c14_"+strings.SplitN(end, ":", 2)[0]]++
+		}
+		// the negative fact first: answered or terminated by a filter => never forwarded
+		if end != "forward" && len(r.Upstream) > 0 && len(got) >= len(want) {
+			s.Violate("C14", "denied_request_forwarded", "req#%d was %s by a receive filter but reached upstream %s (filter calls %v)", r.Idx, end, r.Upstream[0].Host, got)
+		}
+		// order / at most once per pass
+		n := len(got)
+		if n > len(want) {
+			n = len(want)
+		}
+		if fmt.Sprint(got[:n]) != fmt.Sprint(want[:n]) || len(got) > len(want) {
+			s.Violate("C14", "filter_order", "req#%d verdicts %v: receive filters ran as %v, the configured order and verdicts prescribe %v", r.Idx, verdict, got, want)
+			continue
+		}
+		if len(got) < len(want) {
+			// legal only if the request ended early for another reason: the client left, or MOSN
+			// itself answered (no healthy upstream, ...) between two phases
+			early := r.ClientLeftAt > 0 || r.Oneway || (len(r.Replies) > 0 && r.Replies[0].Tok == "" && len(r.Upstream) == 0)
+			phaseCut := len(got) == 0 || phaseOf(w.P.Filters, got[len(got)-1]) != phaseOf(w.P.Filters, want[len(got)])
+			if len(got) > 0 && (verdict[got[len(got)-1]] == "rematch" || verdict[got[len(got)-1]] == "rechoose") {
+				phaseCut = true // route matching / host selection runs again right after such a call and may fail
+			}
+			if !(early && (phaseCut || r.ClientLeftAt > 0)) {
+				s.Violate("C14", "filter_skipped", "req#%d verdicts %v: receive filters ran as %v, expected %v", r.Idx, verdict, got, want)
+			}
+			continue
+		}
+		key := keyOf[r.Token]
+		var sends []string
+		for _, c := range calls {
+			if c.Kind == "send" && c.Key == key && key != "" {
+				sends = append(sends, c.Filter)
+			}
+		}
+		switch {
+		case end == "terminated":
+			if len(r.Replies) > 0 {
+				s.Violate("C14", "reply_after_terminate", "req#%d was terminated by a receive filter but the client received %d replies", r.Idx, len(r.Replies))
+			}
+		case strings.HasPrefix(end, "answered") && r.Oneway:
+			if len(r.Replies) > 0 {
+				s.Violate("C14", "reply_to_oneway", "one-way req#%d was %s and the client received %d replies", r.Idx, end, len(r.Replies))
+			}
+		case strings.HasPrefix(end, "answered") && r.ClientLeftAt == 0:
+			if len(r.Replies) != 1 {
+				s.Violate("C14", "answered_reply_count", "req#%d was %s: the client must get exactly that one reply, got %d", r.Idx, end, len(r.Replies))
+				continue
+			}
+			rep := r.Replies[0]
+			parts := strings.Split(end, ":")
+			fname, v := parts[1], parts[2]
+			okBody := true
+			switch v {
+			case "hijackbody":
+				okBody = string(rep.Body) == "filter-body-"+fname
+			case "direct":
+				okBody = string(rep.Body) == "direct-"+fname
+			}
+			okStatus := rep.Tok == "" && !rep.Success
+			if r.Proto == "http1" {
+				okStatus = rep.Status == 403 || (v == "direct" && rep.Status == 299)
+			}
+			if !okBody || !okStatus {
+				s.Violate("C14", "answered_reply_wrong", "req#%d was %s but the client received status %d body %q", r.Idx, end, rep.Status, string(rep.Body))
+			}
+		}
+		// send filters: once per response, in order
+		// (a response of an earlier attempt that MOSN discarded in favour of a retry may have passed
+		// the send filters as well: k complete passes, 1 <= k <= 1 + answered attempts)
+		if len(sendFilters) > 0 && key != "" {
+			answered := 0
+			for _, up := range r.Upstream {
+				if len(up.Sent) > 0 {
+					answered++
+				}
+			}
+			k := len(sends) / len(sendFilters)
+			okShape := len(sends)%len(sendFilters) == 0
+			for i := range sends {
+				if sends[i] != sendFilters[i%len(sendFilters)] {
+					okShape = false
+				}
+			}
+			minK := 0
+			if len(r.Replies) > 0 && r.ClientLeftAt == 0 {
+				minK = 1
+			}
+			if !okShape || k < minK || k > 1+answered {
+				s.Violate("C14", "send_filters", "req#%d (%s, %d replies delivered, %d upstream answers): send filters ran as %v, configured %v", r.Idx, end, len(r.Replies), answered, sends, sendFilters)
+			}
+		}
+	}
+}
+
+func phaseOf(fs []FilterSpec, name string) int {
+	for _, f := range fs {
+		if f.Name == name {
+			return f.Phase
+		}
+	}
+	return -9
+}
+
+// filterOutcome: what the reference model prescribes for r's filter verdicts,
+// which receive filters actually ran, and whether the run got as far as the model.
+func (w *Proxy) filterOutcome(r *peers.ReqRec) (want, got []string, end string, verdict map[string]string) {
+	verdict = map[string]string{}
+	for _, f := range w.P.Filters {
+		if v := r.Extra["fv:"+f.Name]; v != "" {
+			verdict[f.Name] = v
+		}
+	}
+	want, end = expectedRecvCalls(w.P.Filters, verdict)
+	for _, c := range FLog.Calls() {
+		if c.Kind == "recv" && c.Tok == r.Token {
+			got = append(got, c.Filter)
+		}
+	}
+	return
 }
